@@ -174,6 +174,9 @@ type c06Case struct {
 	// Limit: the client's read limit (0 = the harness's 64 KiB guard); with
 	// Body "page" the peer sends a non-Connect error page larger than it.
 	Limit int `json:"limit,omitempty"`
+	// H1: the response arrives as HTTP/1.1 (a proxy or load balancer in front of
+	// the server that does not speak HTTP/2), for every kind of call incl. bidi.
+	H1 bool `json:"h1,omitempty"`
 }
 
 func (k c06Case) key() string {
@@ -193,6 +196,9 @@ func (k c06Case) key() string {
 	}
 	if k.Limit > 0 {
 		body += fmt.Sprintf("/limit=%d", k.Limit)
+	}
+	if k.H1 {
+		body += "/http1"
 	}
 	return fmt.Sprintf("%s/%s/%s/st%d/ct=%s/enc=%s/hs=%s/ts=%s/msg=%q/det=%s/body=%s", k.Proto, k.Kind, codec, k.Status, k.CT, k.Enc, k.HStatus, k.TStatus, k.Msg, k.Details, body)
 }
@@ -288,6 +294,10 @@ func c06Check(c *ev.Collector, k c06Case) {
 		tags = append(tags, "content-length="+k.CLen)
 	}
 	tr := &memhttp.Transport{Handler: refwire.Handler(k.Status, header, body, trailer), Proto: 2, SyncCloseReq: true}
+	if k.H1 {
+		tr.Proto = 1
+		tags = append(tags, "http1")
+	}
 	if k.TakeSet {
 		tags = append(tags, fmt.Sprintf("take=%d", k.Take))
 		inner := tr.Handler
@@ -518,6 +528,26 @@ func TestC06(t *testing.T) {
 						continue
 					}
 					k := c06Case{Proto: p, Kind: kind, Status: st, CT: "text/html", Enc: "-", HStatus: "-", TStatus: "-", Msg: "-", Details: "-", Body: "page", Dev: 2, Limit: lim}
+					c.Case(k.key(), true)
+					Bubble(t, func() { c06Check(c, k) })
+				}
+			}
+		}
+	}
+	// the answer comes over HTTP/1.1, whatever the kind of call: non-200 answers of something in
+	// front of the server, and the valid response
+	for _, p := range AllProtos {
+		for _, kind := range AllKinds {
+			for _, st := range []int{200, 400, 401, 403, 404, 429, 500, 502, 503, 504, 505} {
+				for _, ct := range []string{"echo", "text/html"} {
+					idx++
+					if !ev.Mine(idx) {
+						continue
+					}
+					k := c06Case{Proto: p, Kind: kind, Status: st, CT: ct, Enc: "-", HStatus: "-", TStatus: "-", Msg: "-", Details: "-", Body: "valid", Dev: 1, H1: true}
+					if ct == "text/html" {
+						k.Body, k.Dev = "page", 2
+					}
 					c.Case(k.key(), true)
 					Bubble(t, func() { c06Check(c, k) })
 				}
